@@ -211,7 +211,7 @@ def result_var(node):
     """Where does the value of an expression go?  ('var', VarDecl/DeclRef node) when it initialises or is assigned to a
     plain variable, ('discarded', None) when it is an expression statement, ('expr', parent) otherwise."""
     cur, p = node, node.parent
-    while p is not None and p.k in ("ParenExpr", "ImplicitCastExpr", "CStyleCastExpr"):
+    while p is not None and (p.k in ("ParenExpr", "ImplicitCastExpr", "CStyleCastExpr") or (p.k == "UnaryOperator" and p.op == "__extension__")):
         cur, p = p, p.parent
     if p is None:
         return ("discarded", None)
